@@ -1027,7 +1027,7 @@ def part_corpus(ctx, model_ok):
     rnd = ctx.rng("c14l-corpus")
     progs = PC.select(ctx.tier, rnd)
     if ctx.tier == "quick":
-        progs = progs[:12]
+        progs = progs[:8]
     levels = [OptimizationLevel.CODESIZE] if ctx.tier == "quick" else [OptimizationLevel.GAS, OptimizationLevel.CODESIZE, OptimizationLevel.O3]
     nfail = 0
     with warnings.catch_warnings():
@@ -1049,7 +1049,7 @@ def part_corpus(ctx, model_ok):
         allv = sorted(obs.samples[kind].values(), key=lambda s_: (not s_["changed"], -s_["ninsts"], s_["name"]))
         changed = [s_ for s_ in allv if s_["changed"]]
         same = [s_ for s_ in allv if not s_["changed"]]
-        cap_c, cap_s = (40, 8) if ctx.tier == "quick" else (100000, 200)
+        cap_c, cap_s = (24, 4) if ctx.tier == "quick" else (100000, 200)
         pick = changed[:cap_c] + (rnd.sample(same, cap_s) if len(same) > cap_s else same)
         st = {"distinct": len(allv), "changed": len(changed), "checked": len(pick), "accepted": 0, "unsupported": 0, "rejected": 0}
         if model_ok and pick:
